@@ -22,6 +22,15 @@ package dual
 //	prov     FindProvidersAsync with the LAN (or WAN) sender held back until the other
 //	         side's providers have been delivered: both arrival orders, and unforced
 //	combine  combineErrors on nil / sentinel / fresh errors
+//	inbound  the three sites where an inner DHT stores or forwards addresses of a provider
+//	         record: op add_provider - an inbound ADD_PROVIDER (through the wire encoding and
+//	         the DHT's own handler table) with entries of the sender / of other peers / without
+//	         addresses, address sets all-private, all-loopback, mixed, all-public, relay, dns,
+//	         random: what the peerstore and the provider store hold afterwards; op
+//	         get_providers - a served GET_PROVIDERS whose providers have mixed peerstore
+//	         addresses (this node included): the addresses attached to each record; op
+//	         find_providers - an inner FindProvidersAsync against scripted responders naming
+//	         providers (this node and connected peers included): the peerstore afterwards
 //
 // coq/Corr/Run_C15.v evaluates the same inputs on the model.
 
@@ -53,6 +62,7 @@ import (
 	ma "github.com/multiformats/go-multiaddr"
 	manet "github.com/multiformats/go-multiaddr/net"
 	mh "github.com/multiformats/go-multihash"
+	"google.golang.org/protobuf/proto"
 
 	dht "github.com/libp2p/go-libp2p-kad-dht"
 	dhtcfg "github.com/libp2p/go-libp2p-kad-dht/internal/config"
@@ -382,9 +392,17 @@ type c15Net struct {
 	ps    peerstore.Peerstore
 	mu    sync.Mutex
 	conns map[peer.ID][]network.Conn
+	live  map[peer.ID]bool // peers reported as connected (inbound find_providers cases only)
 }
 
-func (n *c15Net) Connectedness(peer.ID) network.Connectedness { return network.NotConnected }
+func (n *c15Net) Connectedness(p peer.ID) network.Connectedness {
+	n.mu.Lock()
+	defer n.mu.Unlock()
+	if n.live[p] {
+		return network.Connected
+	}
+	return network.NotConnected
+}
 func (n *c15Net) Peers() []peer.ID                            { return nil }
 func (n *c15Net) Conns() []network.Conn                       { return nil }
 func (n *c15Net) ConnsToPeer(p peer.ID) []network.Conn {
@@ -1221,6 +1239,540 @@ func c15CaseCombine(r *vfRand, i int) c15Case {
 		desc: map[string]any{"kind": "combine", "a": ka, "b": kb_, "nil": res == nil, "sentinels": c15Sentinels(res)}}
 }
 
+
+// ---- inbound: provider records ---------------------------------------------------------------------
+
+// address sets by class (chosen by construction of the IP / name; the model classifies them itself)
+var c15InClasses = []string{"private", "loopback", "private+loopback", "mixed", "public", "relay", "dns", "empty", "random"}
+
+func (p *c15Pool) mk(kind string, ip *big.Int, name string, relay bool) c15Addr {
+	for {
+		a, ok := c15Build(kind, ip, name, false, relay, p.r.Intn(6))
+		if ok {
+			return p.add(a)
+		}
+	}
+}
+func c15IP4(a, b, c, d int) *big.Int {
+	return big.NewInt(int64(a)<<24 | int64(b)<<16 | int64(c)<<8 | int64(d))
+}
+func c15IP6(hi, lo uint64) *big.Int {
+	v := new(big.Int).SetUint64(hi)
+	return v.Lsh(v, 64).Or(v, new(big.Int).SetUint64(lo))
+}
+func (p *c15Pool) private1() c15Addr {
+	r := p.r
+	switch r.Intn(7) {
+	case 0:
+		return p.mk("ip4", c15IP4(192, 168, r.Intn(256), 1+r.Intn(254)), "", false)
+	case 1:
+		return p.mk("ip4", c15IP4(10, r.Intn(256), r.Intn(256), 1+r.Intn(254)), "", false)
+	case 2:
+		return p.mk("ip4", c15IP4(172, 16+r.Intn(16), r.Intn(256), 1+r.Intn(254)), "", false)
+	case 3:
+		return p.mk("ip4", c15IP4(169, 254, r.Intn(256), 1+r.Intn(254)), "", false)
+	case 4:
+		return p.mk("ip4", c15IP4(100, 64+r.Intn(64), r.Intn(256), 1+r.Intn(254)), "", false)
+	case 5:
+		return p.mk("ip6", c15IP6(0xfd00000000000000|r.Uint64()>>8, r.Uint64()), "", false) // unique local
+	default:
+		return p.mk("ip6", c15IP6(0xfe80000000000000, r.Uint64()), "", false) // link local
+	}
+}
+func (p *c15Pool) loopback1() c15Addr {
+	r := p.r
+	switch r.Intn(4) {
+	case 0:
+		return p.mk("ip4", c15IP4(127, 0, 0, 1), "", false)
+	case 1:
+		return p.mk("ip4", c15IP4(127, r.Intn(256), r.Intn(256), r.Intn(256)), "", false)
+	case 2:
+		return p.mk("ip6", big.NewInt(1), "", false)
+	default:
+		return p.mk("ip6", new(big.Int).Or(new(big.Int).Lsh(big.NewInt(0xffff), 32), c15IP4(127, 0, 0, 1)), "", false) // ::ffff:127.0.0.1
+	}
+}
+func (p *c15Pool) public1() c15Addr {
+	r := p.r
+	switch r.Intn(3) {
+	case 0:
+		return p.mk("ip6", c15IP6(0x2a00000000000000|r.Uint64()>>12, r.Uint64()), "", false)
+	case 1:
+		return p.mk("dns", nil, []string{"example.com", "libp2p.io", "bootstrap.libp2p.io"}[r.Intn(3)], false)
+	default:
+		return p.public4()
+	}
+}
+func (p *c15Pool) class(cl string) []c15Addr {
+	r := p.r
+	var out []c15Addr
+	rep := func(n int, f func() c15Addr) {
+		for i := 0; i < n; i++ {
+			out = append(out, f())
+		}
+	}
+	switch cl {
+	case "private":
+		rep(1+r.Intn(3), p.private1)
+	case "loopback":
+		rep(1+r.Intn(2), p.loopback1)
+	case "private+loopback":
+		rep(1+r.Intn(2), p.private1)
+		rep(1+r.Intn(2), p.loopback1)
+	case "mixed":
+		rep(1, p.private1)
+		rep(1, p.loopback1)
+		rep(1+r.Intn(2), p.public1)
+		if r.Bool() {
+			out = append(out, p.mk("ip4", p.public4().IP, "", true))
+		}
+	case "public":
+		rep(1+r.Intn(3), p.public1)
+	case "relay":
+		out = append(out, p.mk("ip4", p.public4().IP, "", true))
+		if r.Bool() {
+			out = append(out, p.mk("ip4", c15IP4(192, 168, 1, 1+r.Intn(200)), "", true))
+		}
+		if r.Bool() {
+			out = append(out, p.mk("ip4", c15IP4(127, 0, 0, 1), "", true))
+		}
+	case "dns":
+		for i, n := 0, 1+r.Intn(3); i < n; i++ {
+			out = append(out, p.mk("dns", nil, c15DNSNames[r.Intn(len(c15DNSNames))], r.Chance(15)))
+		}
+	case "empty":
+	default:
+		out = p.list(r.Intn(6))
+	}
+	// distinct, in a random order
+	seen := map[int]bool{}
+	var uniq []c15Addr
+	for _, i := range r.Perm(len(out)) {
+		if !seen[out[i].ID] {
+			seen[out[i].ID] = true
+			uniq = append(uniq, out[i])
+		}
+	}
+	return uniq
+}
+
+type c15Entry struct {
+	Peer  int       `json:"peer"`
+	Addrs []c15Addr `json:"addrs"`
+}
+
+func c15EntriesCoq(es []c15Entry) string {
+	it := make([]string, len(es))
+	for i, e := range es {
+		it[i] = fmt.Sprintf("PE_ %d %s", e.Peer, c15AddrsCoq(e.Addrs))
+	}
+	return vfList(it)
+}
+
+type c15PeerAddrs struct {
+	Peer int   `json:"peer"`
+	IDs  []int `json:"addr_ids"`
+}
+
+func c15PeerAddrsCoq(xs []c15PeerAddrs) string {
+	it := make([]string, len(xs))
+	for i, x := range xs {
+		it[i] = fmt.Sprintf("(%d%%nat, %s)", x.Peer, c15NatList(x.IDs))
+	}
+	return vfList(it)
+}
+
+// c15Preload writes addrs into the (shared) peerstore and returns what the peerstore then really holds of them.
+func c15Preload(n *c15Node, p peer.ID, cand []c15Addr) []c15Addr {
+	if len(cand) == 0 {
+		return nil
+	}
+	n.h.ps.AddAddrs(p, c15Maddrs(cand), time.Hour)
+	have := map[string]bool{}
+	for _, m := range n.h.ps.Addrs(p) {
+		have[string(m.Bytes())] = true
+	}
+	var out []c15Addr
+	for _, a := range cand {
+		if have[string(a.m.Bytes())] {
+			out = append(out, a)
+		}
+	}
+	return out
+}
+
+// c15Deliver hands an inbound message to an inner DHT the way its stream handler does: decoded from the
+// wire encoding, then through the handler table.
+func c15Deliver(d *dht.IpfsDHT, from peer.ID, m *pb.Message) (*pb.Message, error, string) {
+	b, err := proto.Marshal(m)
+	if err != nil {
+		return nil, nil, "marshal: " + err.Error()
+	}
+	var in pb.Message
+	if err := proto.Unmarshal(b, &in); err != nil {
+		return nil, nil, "unmarshal: " + err.Error()
+	}
+	ctx, cancel := context.WithTimeout(context.Background(), c15Timeout)
+	defer cancel()
+	resp, herr, ok := dht.VerifC15Handle(ctx, d, from, &in)
+	if !ok {
+		return nil, nil, "no handler for " + m.GetType().String()
+	}
+	return resp, herr, ""
+}
+
+func c15ProvKey(r *vfRand) ([]byte, bool) {
+	h, _ := mh.Sum([]byte(fmt.Sprint("c15 inbound ", r.Uint64())), mh.SHA2_256, -1)
+	return []byte(h), true
+}
+
+func c15SideOf(side string) string {
+	if side == "lan" {
+		return "LAN"
+	}
+	return "WAN"
+}
+
+func c15ClassSig(es []c15Entry) string {
+	// which filter outcomes the entries' address sets reach: p public-by-manet, l loopback, o other
+	has := map[byte]bool{}
+	for _, e := range es {
+		if len(e.Addrs) == 0 {
+			has['e'] = true
+		}
+		for _, a := range e.Addrs {
+			switch {
+			case manet.IsIPLoopback(a.m):
+				has['l'] = true
+			case manet.IsPublicAddr(a.m):
+				has['p'] = true
+			default:
+				has['o'] = true
+			}
+		}
+	}
+	out := ""
+	for _, c := range []byte("elop") {
+		if has[c] {
+			out += string(c)
+		}
+	}
+	return out
+}
+
+// inbound add_provider.  dom >= 0: the deterministic part (one entry of the sender, class and side from dom).
+func c15CaseInAdd(r *vfRand, bnd []c15Cand, dom int) c15Case {
+	n, err := c15NewNode(r)
+	if err != nil {
+		return c15Case{fail: "dual.New: " + err.Error()}
+	}
+	defer n.close()
+	pool := c15NewPool(r, bnd)
+	side := "wan"
+	if (dom >= 0 && dom%2 == 1) || (dom < 0 && r.Chance(40)) {
+		side = "lan"
+	}
+	peers := []peer.ID{n.h.id, c15PeerID(r), c15PeerID(r), c15PeerID(r)} // 0 = this node
+	sender := 1
+	key, keyOK := c15ProvKey(r)
+	var msg, known []c15Entry
+	if dom >= 0 {
+		msg = []c15Entry{{Peer: 1, Addrs: pool.class(c15InClasses[(dom/2)%len(c15InClasses)])}}
+	} else {
+		if r.Chance(4) {
+			sender = 0 // a message that claims to come from this node itself
+		}
+		switch r.Intn(20) {
+		case 0:
+			key, keyOK = nil, false
+		case 1:
+			key, keyOK = make([]byte, 81), false
+		}
+		for i, k := 0, 1+r.Intn(3); i < k; i++ {
+			e := c15Entry{Peer: sender}
+			switch x := r.Intn(100); {
+			case x < 12:
+				e.Peer = 2 + r.Intn(2) // somebody else's record
+			case x < 20:
+				e.Peer = 1 - sender // this node's (or, when it is the sender, peer 1's)
+				if e.Peer < 0 {
+					e.Peer = 1
+				}
+			}
+			e.Addrs = pool.class(c15InClasses[r.Intn(len(c15InClasses))])
+			msg = append(msg, e)
+		}
+		for q := 1; q < len(peers); q++ {
+			if r.Chance(30) {
+				if got := c15Preload(n, peers[q], pool.class(c15InClasses[r.Intn(len(c15InClasses))])); len(got) > 0 {
+					known = append(known, c15Entry{Peer: q, Addrs: got})
+				}
+			}
+		}
+	}
+	m := pb.NewMessage(pb.Message_ADD_PROVIDER, key, 0)
+	infos := make([]peer.AddrInfo, len(msg))
+	for i, e := range msg {
+		infos[i] = peer.AddrInfo{ID: peers[e.Peer], Addrs: c15Maddrs(e.Addrs)}
+	}
+	m.ProviderPeers = pb.RawPeerInfosToPBPeers(infos)
+	_, herr, bad := c15Deliver(n.inner(side), peers[sender], m)
+	if bad != "" {
+		return c15Case{fail: bad}
+	}
+	after := make([]c15PeerAddrs, len(peers))
+	stored := 0
+	for q, p := range peers {
+		after[q] = c15PeerAddrs{Peer: q, IDs: pool.ids(n.h.ps.Addrs(p))}
+		stored += len(after[q].IDs)
+	}
+	recorded := []int{}
+	if keyOK {
+		ctx, cancel := context.WithTimeout(context.Background(), c15Timeout)
+		provs, gerr := n.inner(side).ProviderStore().GetProviders(ctx, key)
+		cancel()
+		if gerr != nil {
+			return c15Case{fail: "GetProviders: " + gerr.Error()}
+		}
+		for _, pi := range provs {
+			q := 99
+			for i, p := range peers {
+				if p == pi.ID {
+					q = i
+				}
+			}
+			recorded = append(recorded, q)
+		}
+		sort.Ints(recorded)
+	}
+	term := fmt.Sprintf("CInAdd %s %s %d %s %s\n  %s %s %s", c15SideOf(side), vfBool(keyOK), sender, c15EntriesCoq(msg), c15EntriesCoq(known),
+		vfBool(herr != nil), c15NatList(recorded), c15PeerAddrsCoq(after))
+	sig := fmt.Sprintf("inbound|add|%s|key=%v|snd=%d|cls=%s|err=%v|rec=%d|stored=%v|known=%v", side, keyOK, sender, c15ClassSig(msg), herr != nil,
+		len(recorded), stored > 0, len(known) > 0)
+	if dom >= 0 {
+		sig = fmt.Sprintf("inbound-dom|add|%d", dom)
+	}
+	return c15Case{coq: term, sig: sig, desc: map[string]any{"kind": "inbound", "op": "add_provider", "message": "ADD_PROVIDER", "side": side,
+		"key_ok": keyOK, "sender": sender, "msg": msg, "known": known, "err": herr != nil, "recorded": recorded, "after": after}}
+}
+
+// inbound get_providers: what a served GET_PROVIDERS attaches to its provider records.
+func c15CaseInGet(r *vfRand, bnd []c15Cand, dom int) c15Case {
+	n, err := c15NewNode(r)
+	if err != nil {
+		return c15Case{fail: "dual.New: " + err.Error()}
+	}
+	defer n.close()
+	pool := c15NewPool(r, bnd)
+	side, other := "wan", "lan"
+	if (dom >= 0 && dom%2 == 1) || (dom < 0 && r.Chance(40)) {
+		side, other = "lan", "wan"
+	}
+	peers := []peer.ID{n.h.id, c15PeerID(r), c15PeerID(r), c15PeerID(r), c15PeerID(r)}
+	requester := c15PeerID(r)
+	key, keyOK := c15ProvKey(r)
+	ctx, cancel := context.WithTimeout(context.Background(), c15Timeout)
+	defer cancel()
+	var provs []c15Entry
+	via := "peerstore"
+	for q := range peers {
+		var cl string
+		switch {
+		case dom >= 0 && q == 1:
+			cl = c15InClasses[(dom/2)%len(c15InClasses)]
+		case dom >= 0:
+			continue
+		case q == 0 && !r.Chance(25):
+			continue
+		case q > 0 && !r.Chance(55):
+			continue
+		default:
+			cl = c15InClasses[r.Intn(len(c15InClasses))]
+		}
+		cand := pool.class(cl)
+		if q > 0 && len(cand) > 0 && dom < 0 && r.Chance(35) {
+			// the addresses reach the shared peerstore through the OTHER inner DHT (an announcement it accepted)
+			via = "other-dht"
+			am := pb.NewMessage(pb.Message_ADD_PROVIDER, key, 0)
+			am.ProviderPeers = pb.RawPeerInfosToPBPeers([]peer.AddrInfo{{ID: peers[q], Addrs: c15Maddrs(cand)}})
+			if _, _, bad := c15Deliver(n.inner(other), peers[q], am); bad != "" {
+				return c15Case{fail: bad}
+			}
+		} else {
+			// ... or as identify / a connection would have put them there
+			n.h.ps.AddAddrs(peers[q], c15Maddrs(cand), time.Hour)
+		}
+		if err := n.inner(side).ProviderStore().AddProvider(ctx, key, peer.AddrInfo{ID: peers[q]}); err != nil {
+			return c15Case{fail: "AddProvider: " + err.Error()}
+		}
+		// what the peerstore really holds for this provider
+		var got []c15Addr
+		for _, m := range n.h.ps.Addrs(peers[q]) {
+			if i, ok := pool.byKey[string(m.Bytes())]; ok {
+				got = append(got, pool.addrs[i])
+			} else {
+				return c15Case{fail: "peerstore holds an address that was never generated: " + m.String()}
+			}
+		}
+		sort.Slice(got, func(i, j int) bool { return got[i].ID < got[j].ID })
+		provs = append(provs, c15Entry{Peer: q, Addrs: got})
+	}
+	reqKey := key
+	if dom < 0 {
+		switch r.Intn(25) {
+		case 0:
+			reqKey, keyOK = nil, false
+		case 1:
+			reqKey, keyOK = make([]byte, 81), false
+		}
+	}
+	resp, herr, bad := c15Deliver(n.inner(side), requester, pb.NewMessage(pb.Message_GET_PROVIDERS, reqKey, 0))
+	if bad != "" {
+		return c15Case{fail: bad}
+	}
+	attached := []c15PeerAddrs{}
+	nAttached := 0
+	for _, pbp := range resp.GetProviderPeers() {
+		q := 99
+		for i, p := range peers {
+			if p == peer.ID(pbp.GetId()) {
+				q = i
+			}
+		}
+		attached = append(attached, c15PeerAddrs{Peer: q, IDs: pool.ids(pbp.Addresses())})
+		nAttached += len(pbp.Addresses())
+	}
+	sort.SliceStable(attached, func(i, j int) bool { return attached[i].Peer < attached[j].Peer })
+	term := fmt.Sprintf("CInGet %s %s %s %s %s", c15SideOf(side), vfBool(keyOK), c15EntriesCoq(provs), vfBool(herr != nil), c15PeerAddrsCoq(attached))
+	sig := fmt.Sprintf("inbound|get|%s|key=%v|cls=%s|n=%d|self=%v|att=%v|via=%s", side, keyOK, c15ClassSig(provs), len(provs),
+		len(provs) > 0 && provs[0].Peer == 0, nAttached > 0, via)
+	if dom >= 0 {
+		sig = fmt.Sprintf("inbound-dom|get|%d", dom)
+	}
+	return c15Case{coq: term, sig: sig, desc: map[string]any{"kind": "inbound", "op": "get_providers", "message": "GET_PROVIDERS", "side": side,
+		"key_ok": keyOK, "providers": provs, "via": via, "err": herr != nil, "attached": attached}}
+}
+
+// inbound find_providers: what an inner FindProvidersAsync stores of the providers a response names.
+func c15CaseInFind(r *vfRand, bnd []c15Cand, dom int) c15Case {
+	n, err := c15NewNode(r)
+	if err != nil {
+		return c15Case{fail: "dual.New: " + err.Error()}
+	}
+	defer n.close()
+	pool := c15NewPool(r, bnd)
+	side := "wan"
+	if (dom >= 0 && dom%2 == 1) || (dom < 0 && r.Chance(40)) {
+		side = "lan"
+	}
+	peers := []peer.ID{n.h.id, c15PeerID(r), c15PeerID(r), c15PeerID(r), c15PeerID(r)}
+	nseeds := 1
+	count := 0
+	var known []c15Entry
+	conn := []int{}
+	if dom < 0 {
+		nseeds = 1 + r.Intn(2)
+		if r.Chance(25) {
+			count = 1 + r.Intn(3)
+		}
+		n.h.net.mu.Lock()
+		n.h.net.live = map[peer.ID]bool{}
+		for q := 1; q < len(peers); q++ {
+			if r.Chance(12) {
+				n.h.net.live[peers[q]] = true
+				conn = append(conn, q)
+			}
+		}
+		n.h.net.mu.Unlock()
+		for q := 1; q < len(peers); q++ {
+			if r.Chance(25) {
+				if got := c15Preload(n, peers[q], pool.class(c15InClasses[r.Intn(len(c15InClasses))])); len(got) > 0 {
+					known = append(known, c15Entry{Peer: q, Addrs: got})
+				}
+			}
+		}
+	}
+	seeds := c15Seeds(r, nseeds)
+	var all []c15Entry
+	snd := n.sender(side)
+	for _, sp := range seeds {
+		var es []c15Entry
+		if dom >= 0 {
+			es = []c15Entry{{Peer: 1, Addrs: pool.class(c15InClasses[(dom/2)%len(c15InClasses)])}}
+		} else {
+			for i, k := 0, 1+r.Intn(4); i < k; i++ {
+				q := 1 + r.Intn(len(peers)-1)
+				if r.Chance(10) {
+					q = 0
+				}
+				es = append(es, c15Entry{Peer: q, Addrs: pool.class(c15InClasses[r.Intn(len(c15InClasses))])})
+			}
+		}
+		infos := make([]peer.AddrInfo, len(es))
+		for i, e := range es {
+			infos[i] = peer.AddrInfo{ID: peers[e.Peer], Addrs: c15Maddrs(e.Addrs)}
+		}
+		snd.replies[sp] = c15Reply{providers: infos}
+		all = append(all, es...)
+	}
+	if err := n.seed(side, seeds); err != nil {
+		return c15Case{fail: "seed: " + err.Error()}
+	}
+	h, _ := mh.Sum([]byte(fmt.Sprint("c15 find ", r.Uint64())), mh.SHA2_256, -1)
+	ctx, cancel := context.WithTimeout(context.Background(), c15Timeout)
+	defer cancel()
+	got := 0
+	for range n.inner(side).FindProvidersAsync(ctx, cid.NewCidV1(cid.Raw, h), count) {
+		got++
+	}
+	timedOut := ctx.Err() != nil
+	asked := 0
+	for _, c := range snd.snapshot() {
+		if c.typ == pb.Message_GET_PROVIDERS {
+			asked++
+		}
+	}
+	after := make([]c15PeerAddrs, len(peers))
+	stored := 0
+	for q, p := range peers {
+		after[q] = c15PeerAddrs{Peer: q, IDs: pool.ids(n.h.ps.Addrs(p))}
+		stored += len(after[q].IDs)
+	}
+	term := fmt.Sprintf("CInFind %s (%d)%%Z %s %s %s %s", c15SideOf(side), count, c15EntriesCoq(all), c15EntriesCoq(known), c15NatList(conn),
+		c15PeerAddrsCoq(after))
+	self := false
+	for _, e := range all {
+		self = self || e.Peer == 0
+	}
+	sig := fmt.Sprintf("inbound|find|%s|c=%d|cls=%s|seeds=%d|self=%v|conn=%v|stored=%v|known=%v", side, count, c15ClassSig(all), nseeds, self,
+		len(conn) > 0, stored > 0, len(known) > 0)
+	if dom >= 0 {
+		sig = fmt.Sprintf("inbound-dom|find|%d", dom)
+	}
+	c := c15Case{coq: term, sig: sig, desc: map[string]any{"kind": "inbound", "op": "find_providers", "message": "GET_PROVIDERS response", "side": side,
+		"count": count, "responders": nseeds, "asked": asked, "response_providers": all, "known": known, "connected": conn, "yielded": got, "after": after}}
+	if timedOut {
+		c.fail = "inner FindProvidersAsync did not finish"
+	} else if asked == 0 {
+		c.fail = "no GET_PROVIDERS request was sent"
+	}
+	return c
+}
+
+// c15InDom: size of the deterministic inbound part: every address class x both sides x the three ops.
+var c15InDom = 3 * 2 * (len(c15InClasses) - 1) // the "random" class is left to the random part
+
+func c15CaseInbound(r *vfRand, bnd []c15Cand, op, dom int) c15Case {
+	switch op % 3 {
+	case 0:
+		return c15CaseInAdd(r, bnd, dom)
+	case 1:
+		return c15CaseInGet(r, bnd, dom)
+	default:
+		return c15CaseInFind(r, bnd, dom)
+	}
+}
+
 func TestVerifC15(t *testing.T) {
 	seed := vfSeed()
 	n := vfEnvInt("VERIF_N", 300)
@@ -1250,8 +1802,18 @@ func TestVerifC15(t *testing.T) {
 				c = c15CaseAddr(r, bnd, i)
 			case i < nSweep+36:
 				c = c15CaseCombine(r, i-nSweep)
+			case i < nSweep+36+c15InDom:
+				// every address class (all-private, all-loopback, ... : the sets a filter empties included)
+				// on both inner DHTs through each of the three provider-record sites
+				d := i - nSweep - 36
+				c = c15CaseInbound(r, bnd, d%3, d/3)
 			default:
-				j := i - nSweep - 36
+				j := i - nSweep - 36 - c15InDom
+				if j%6 == 5 { // one case in six of the random part
+					c = c15CaseInbound(r, bnd, j/6, -1)
+					break
+				}
+				j -= (j + 1) / 6
 				switch j % 10 {
 				case 0, 1, 2:
 					c = c15CaseAddr(r, bnd, -1)
